@@ -1,7 +1,7 @@
 #!/bin/bash
 # Runs the repository's own test suite with hooks off; exit status reflects the result.
 export GOFLAGS=-mod=mod GOPROXY=off GOSUMDB=off GOTOOLCHAIN=local
-cd /repo && out=$(go test -vet=off -count=1 ./... 2>&1); rc=$?
+cd "${1:-/repo}" && out=$(go test -vet=off -count=1 ./... 2>&1); rc=$?
 echo "$out" | grep -v '^ok' | head -40
 echo "$out" | grep -c '^ok' | sed 's/$/ packages ok/'
 exit $rc
